@@ -4,7 +4,6 @@ import (
 	"crypto/sha256"
 	"encoding/json"
 	"errors"
-	"fmt"
 	"time"
 
 	"github.com/0xrawsec/sod"
@@ -255,20 +254,14 @@ func setPayload(r *Rec, n int) {
 	}
 }
 
-var plIDs = map[string]int{}
-
-// payloadID gives a small integer identifying the canonical JSON of the
-// payload fields (and P's nil-ness is a separate field, Pn).
+// payloadID identifies the canonical JSON of the payload fields by a number that is the same in every
+// process (traces recorded by another build of the harness, e.g. the golden corpus, stay comparable):
+// the first 28 bits of its SHA-256.  (P's nil-ness is a separate field, Pn.)
 func payloadID(r *Rec) int {
 	b, err := json.Marshal([]interface{}{r.L, r.M, r.Q, r.I, r.B, r.G, r.H, r.J})
 	if err != nil {
 		b = []byte("unmarshalable:" + err.Error())
 	}
-	h := fmt.Sprintf("%x", sha256.Sum256(b))
-	if id, ok := plIDs[h]; ok {
-		return id
-	}
-	id := len(plIDs) + 1
-	plIDs[h] = id
-	return id
+	h := sha256.Sum256(b)
+	return int(h[0])<<20 | int(h[1])<<12 | int(h[2])<<4 | int(h[3])>>4
 }
